@@ -114,6 +114,110 @@ pub struct SimDriver {
     st: RefCell<State>,
 }
 
+/// Virtual timeline of an observable which concurrent leaves poll (the injected quota): leaves of one fork-join which run
+/// on *different* virtual workers are concurrent in a real execution, so each worker advances its own count from the value
+/// at the fork, the join continues from the maximum, and a worker never goes back behind a value it has already seen
+/// (an OS thread observes real time monotonically). Every assignment produced this way is consistent with happens-before
+/// (fork -> leaf, leaf -> join, program order per worker), i.e. it is an observation a real execution can make when all
+/// workers progress at the same pace - in particular several leaves see the flip *in the middle* of their work, which the
+/// atomic-leaf model of DESIGN 2.3 cannot produce. Off by default (plain global counter semantics live in the quota itself).
+#[derive(Default)]
+struct Vt {
+    enabled: bool,
+    now: u64,
+    frames: Vec<VtFrame>,
+    last: BTreeMap<usize, u64>,
+    /// leaves which started behind the position another leaf of the same fork-join had reached (truly overlapping observation)
+    overlaps: u64,
+}
+
+struct VtFrame {
+    base: u64,
+    per_worker: BTreeMap<usize, u64>,
+    max: u64,
+}
+
+thread_local! {
+    static VT: RefCell<Vt> = RefCell::new(Vt::default());
+}
+
+/// Resets the virtual timeline of this thread (call inside `monitor`, at the start of a run).
+pub fn vt_reset(enabled: bool) {
+    VT.with(|v| *v.borrow_mut() = Vt { enabled, ..Default::default() });
+}
+
+/// Returns the position of the running worker on the virtual timeline and advances it (no allocation).
+pub fn vt_tick() -> u64 {
+    VT.with(|v| {
+        let mut v = v.borrow_mut();
+        let c = v.now;
+        v.now += 1;
+        c
+    })
+}
+
+pub fn vt_now() -> u64 {
+    VT.with(|v| v.borrow().now)
+}
+
+pub fn vt_overlaps() -> u64 {
+    VT.with(|v| v.borrow().overlaps)
+}
+
+fn vt_fork() {
+    VT.with(|v| {
+        let mut v = v.borrow_mut();
+        if v.enabled {
+            let base = v.now;
+            v.frames.push(VtFrame { base, per_worker: BTreeMap::new(), max: base });
+        }
+    })
+}
+
+fn vt_begin(worker: usize) {
+    VT.with(|v| {
+        let mut v = v.borrow_mut();
+        if !v.enabled {
+            return;
+        }
+        let seen = v.last.get(&worker).copied().unwrap_or(0);
+        if let Some(f) = v.frames.last() {
+            let start = f.per_worker.get(&worker).copied().unwrap_or(f.base).max(seen);
+            if start < f.max {
+                v.overlaps += 1;
+            }
+            v.now = start;
+        }
+    })
+}
+
+fn vt_end(worker: usize) {
+    VT.with(|v| {
+        let mut v = v.borrow_mut();
+        if !v.enabled {
+            return;
+        }
+        let now = v.now;
+        v.last.insert(worker, now);
+        if let Some(f) = v.frames.last_mut() {
+            f.per_worker.insert(worker, now);
+            f.max = f.max.max(now);
+        }
+    })
+}
+
+fn vt_join() {
+    VT.with(|v| {
+        let mut v = v.borrow_mut();
+        if !v.enabled {
+            return;
+        }
+        if let Some(f) = v.frames.pop() {
+            v.now = v.now.max(f.max);
+        }
+    })
+}
+
 fn new_worker_rng(stream: &mut Prng) -> (SmallRng, SmallRng) {
     // `repeatable` is seeded with 0 on every thread in the shipped code; `randomized` per thread entropy.
     (SmallRng::seed_from_u64(0), SmallRng::seed_from_u64(stream.next_u64()))
@@ -397,6 +501,7 @@ impl ForkJoinDriver for SimDriver {
                 e.plans.insert(h);
             }
             log_event(0xF0F0, ((site.line() as u64) << 32) ^ len as u64, h);
+            vt_fork();
             steps
         })
     }
@@ -410,10 +515,19 @@ impl ForkJoinDriver for SimDriver {
             };
             st.switch_to(worker);
             st.workers[worker].tasks += 1;
+            vt_begin(worker);
         })
     }
 
-    fn end_step(&self, _step: &Step) {}
+    fn end_step(&self, step: &Step) {
+        monitor(|| {
+            let worker = match *step {
+                Step::Leaf { worker, .. } => worker,
+                Step::Reduce { worker, .. } => worker,
+            };
+            vt_end(worker);
+        })
+    }
 
     fn finish(&self) {
         monitor(|| {
@@ -421,6 +535,7 @@ impl ForkJoinDriver for SimDriver {
             if let Some(caller) = st.frames.pop() {
                 st.switch_to(caller);
             }
+            vt_join();
         })
     }
 
@@ -430,7 +545,9 @@ impl ForkJoinDriver for SimDriver {
             let st = &mut *guard;
             let id = st.pools.len();
             let mut pool = Pool { workers: vec![] };
-            for _ in 0..num_threads.max(1) {
+            // zero threads: rayon takes its default, the number of cpus - here the size of the global pool
+            let num_threads = if num_threads == 0 { st.cfg.workers.clamp(1, 16) } else { num_threads };
+            for _ in 0..num_threads {
                 pool.workers.push(st.workers.len());
                 let rng = new_worker_rng(&mut st.rng_stream);
                 st.workers.push(Worker { pool: id, rng: Some(rng), busy: false, tasks: 0 });
